@@ -130,7 +130,7 @@ func checkC10(ctx *Ctx) *Result {
 		if len(rp.Serves) > 0 {
 			good, detail = true, ""
 			for _, w := range rp.WritesTo(hVary) {
-				if !((w.Op == "add" || w.Op == "set") && strings.HasPrefix(w.Tag, "const(")) {
+				if !((w.Op == "add" || w.Op == "set") && strings.HasPrefix(w.Tag, "const(")) && !(w.Op == "append" && strings.HasPrefix(w.Tag, "append(old(Vary), const(")) {
 					good, detail = false, "on a path that reaches the wrapped handler, Vary is installed as "+w.String()+": a handler rewriting it in place changes the Vary of later responses"
 				}
 			}
